@@ -693,8 +693,10 @@ func p11GenFile(r *rng, st map[string]int, malformed bool) *ir.File {
 	f := ir.NewFile()
 	f.Constraints = p11GenConstraints(r)
 	if malformed && r.chance(1, 5) {
-		// terms the constraint syntax does not allow (incl. printf verbs: goasm.header uses the
-		// formatted block as a format string)
+		// terms the constraint syntax does not allow (incl. printf verbs).  NOTE: goasm.header passes the formatted
+		// block to Printf as a FORMAT string, but these terms never get there: buildtags.Format turns every
+		// constraint set with an invalid term into `//go:build ignore`, so the verbs are not exercised (and cannot
+		// be, through the public API).  Recorded as an unreachable model difference in c11.py's assumptions.
 		t := pick(r, []string{"a%b", "%d", "100%", "%s", "a b", "//go:build x", ""})
 		f.Constraints = append(f.Constraints, buildtags.Constraint{buildtags.Option{buildtags.Term(t)}})
 	}
